@@ -664,6 +664,8 @@ def step(t):
             n = array_len(args[0])
             if n is not None:
                 return n
+            if x[0] == 'comp':
+                return ('sum', x[1], C(1))          # the length of a comprehension does not depend on what it collects
             ge = group_elem(args[0])
             if ge is not None:
                 ch2, key, val, j = ge
